@@ -11,7 +11,7 @@ CLAIMS = {
          "node Eq/Hash over children only; get_or_insert allocates on the Err arm only and files under the looked-up hash; "
          "reviewed direct node constructions; level_swap mutates nodes only while out of the table; all 12 reduce functions "
          "interpreted over their abstract child domain (no redundant node, canonical complement form, level agreement); "
-         "probe-chain accounting of the open-addressing unique table. Does not decide the 'iff' over histories.",
+         "probe-chain accounting of the open-addressing unique table; every F64 terminal constructor normalises its value (one bit pattern per value). Does not decide the 'iff' over histories.",
          "MIR field/dominance rules + abstract interpretation of HIR reduce tables", "3.8, 3.3, 4 C01"),
  "C15": ("E-DDDMP(.strict,.taint,.deadcheck,.prefix) + E-UNITS + E-LIN: writer/reader agreement as finite constant tables: header key set inclusion, byte-class "
          "coverage of the name sanitisers vs the reader's separators (all 256 bytes), escape table and binary node-code layout "
@@ -51,8 +51,8 @@ CLAIMS = {
          "apply_not (BDD, BCDD with all complement-tag combinations) and of the ZBDD set operations is interpreted on structured "
          "abstract operands in every level configuration and compared with the operator for all values of the atoms and decision "
          "variables (plus variable-order and cache-entry validity). Decides base cases, shortcuts, the inductive step and wiring -- "
-         "the induction itself, memory exhaustion and scheduling are not decided.",
-         "abstract interpretation of HIR case tables and wrappers over finite domains", "3.3, 3.4, 4 C02"),
+         "the induction itself, memory exhaustion and scheduling are not decided. E-EVAL: eval_edge interpreted for one iteration of its argument loop (the value given last counts, injective encodings, no other entry touched) and one call of its walk (child for the stored value; complement flag / counter / terminals), plus the initial call.",
+         "abstract interpretation of HIR case tables and wrappers over finite domains", "3.3, 3.4, 3.12, 4 C02"),
  "C04": ("E-TABLE.step + E-WRAP + E-UNITS + E-CACHE: quantifier wrappers and the BDD/BCDD apply-and-quantify dispatch (dualisation) tables are "
          "interpreted for all 8 operators and compared with Q v.(f op g) over all operand valuations; var/level units of the "
          "quantification/substitution code; cache key pairing and hit = miss (restrict's complement tag); E-TABLE.step: the recursive step of quant, "
@@ -60,16 +60,16 @@ CLAIMS = {
          "substitute (simultaneity: swap tables) of BDD and BCDD interpreted on structured operands and cubes over three modelled "
          "levels and compared with the fold of cofactors / the cofactor / the simultaneous substitution. Decides tag/dualisation "
          "plumbing, unit discipline and the inductive step; not substitute_prepare's table construction nor the induction itself.", "abstract interpretation of HIR dispatch tables", "3.4, 4 C04"),
- "C05": ("E-LIN + E-FREELIST(.count,.term) + E-CACHE.dm + E-CANON.swap + E-WHO + E-EVENT.gc-order + E-DBG + E-CFG.slabtype: edge linearity on every non-unwind path of every function body "
+ "C05": ("E-LIN(+.forget) + E-FREELIST(.count,.term) + E-CACHE.dm + E-CANON.swap + E-WHO + E-EVENT.gc-order + E-DBG + E-CFG.slabtype: edge linearity on every non-unwind path of every function body "
          "(drop-elaborated MIR) plus the vetted-destructor table; thread-local free lists and node-count deltas are handed to the "
          "shared store by move only; level_swap releases a node's edges before unlinking children; frozen caller sets of the "
          "node-removal primitives and their gates; Manager::gc sweeps all inner-node levels before the terminal table; the apply cache (uncounted edges) stays locked and empty "
          "between pre_gc and post_gc; node-count bookkeeping (failed allocation undone, adjusted delta stored) and the terminal "
-         "free list written back after a sweep. Necessary conditions of exact reference counts: no owned edge is dropped by the "
+         "free list written back after a sweep; every removal of a node from a unique table reaches the release of the removed edge on all non-unwind paths (E-LIN.forget). Necessary conditions of exact reference counts: no owned edge is dropped by the "
          "compiler instead of being released through the manager, on any path incl. every `?`/out-of-memory path; no slot is on two "
          "free lists. Exactness over histories is not decided.",
          "MIR drop-terminator typestate lint (rustc_private driver) + move-only dataflow + who-may-call", "3.1, 3.8, 3.5, 4 C05"),
- "C03": ("E-UNITS + E-UNITS.pre + E-TABLE.reduce + E-CANON.swap + E-WHO + E-RAW + E-PERM: unit analysis (VarNo vs LevelNo, both u32 aliases) over all bodies of the managers, "
+ "C03": ("E-UNITS + E-UNITS.pre + E-TABLE.reduce + E-CANON (key, funnel, sites, swap) + E-WHO + E-RAW + E-PERM: unit analysis (VarNo vs LevelNo, both u32 aliases) over all bodies of the managers, "
          "oxidd-reorder and the rules crates, seeded from the declared signatures; inside level_swap, stale stored level numbers "
          "vs positions; all 12 reduce functions interpreted (no redundant node, BCDD then-edge untagged, node inserted at the level "
          "it is created for); set_child before insert and relabel before insert in level_swap; only oxidd-reorder may call the "
@@ -108,7 +108,7 @@ CLAIMS = {
          "only, gated entry points; the level-permutation loop of set_var_order_common advances only on the element-in-place edge "
          "(loop invariant) and swaps its three tables together; DiagramRules::skipped_cofactor of every kind agrees with the kind's "
          "semantics of a skipped level (zero-suppressed for ZBDDs) and level_swap uses it; Manager::reorder brackets the closure "
-         "and bumps the gc epoch on every path. Does not decide that functions are preserved.",
+         "and bumps the gc epoch on every path; the parallel relabelling pass builds its work list from level positions, not from stale numbers (E-PERM.relabel). Does not decide that functions are preserved.",
          "dimension (unit) analysis over HIR + MIR drop lint + ordering/who-may-call rules", "3.10, 3.1, 3.8, 3.5, 4 C08"),
  "C13": ("E-TABLE.pick + E-UNITS + E-POST.mapusers: one step of pick_cube_edge / pick_cube_dd_edge / pick_cube_dd_set_edge (BDD and BCDD) interpreted over a "
          "structured abstract node: a forced branch (one child = false) is taken without consulting the choice, otherwise the choice "
@@ -131,7 +131,7 @@ CLAIMS = {
          "interpreted against set algebra; units and cache key pairing of the zbdd rules crate; E-TABLE.step: the recursive step of "
          "union/intsec/diff/symm_diff, subset0/subset1/change and apply_ite interpreted under zero-suppressed semantics in every "
          "level configuration, incl. restrict of the Boolean-function view (cubes with positive / negative / don't-care levels); "
-         "skipped-level cofactors are zero-suppressed. make_node and consistency after add_vars beyond the cache events are not decided.",
+         "skipped-level cofactors are zero-suppressed; restrict_base creates one don't-care node per skipped level (a loop over the level range). E-EVAL: eval_edge interpreted for one iteration of its argument loop (the value given last counts, injective encodings, no other entry touched) and one call of its walk (child for the stored value; complement flag / counter / terminals), plus the initial call. make_node and consistency after add_vars beyond the cache events are not decided.",
          "abstract interpretation of HIR wrappers", "3.4, 4 C09"),
  "C10": ("E-TABLE + E-WRAP: mtbdd::terminal_bin enumerated over {NaN,0,1,c1,c2,x,y}^2 for 6 operators and all comparison "
          "outcomes, result term compared with the pointwise operator on a grid of extended reals with NaN (neutral/absorbing "
@@ -139,14 +139,14 @@ CLAIMS = {
          "operator they are named for; I64 Add/Sub/Mul/Div interpreted over sign classes with checked_* = None exactly on "
          "overflow-capable sign pairs (saturation to the infinity of the exact result's sign); cache key pairing; E-TABLE.step: the "
          "recursive step of apply_bin (6 operators, incl. terminal operands), apply_ite and restrict over extended reals with NaN; "
-         "E-WHO: terminals are freed by Manager::gc only (the apply cache holds uncounted terminal edges).",
+         "E-WHO: terminals are freed by Manager::gc only (the apply cache holds uncounted terminal edges); every F64 constructor normalises. E-EVAL: eval_edge interpreted for one iteration of its argument loop (the value given last counts, injective encodings, no other entry touched) and one call of its walk (child for the stored value; complement flag / counter / terminals), plus the initial call.",
          "abstract interpretation of HIR case tables", "3.3, 3.4, 4 C10"),
  "C11": ("E-TABLE + E-WRAP: tdd::terminal_bin enumerated over {F,U,T,x,y}^2 for 8 operators and compared with the Kleene / "
          "Lukasiewicz tables named in the property; TVLFunction wrappers and default constant constructors (f/t/u) forward to "
          "the method they are named for; apply_ite_rec's shortcut prefix interpreted against the pointwise decision list; cache "
          "key pairing; E-TABLE.step: the ternary recursive step of apply_bin (8 operators), apply_ite_rec and apply_not over "
          "three-valued atoms and variables; E-UNITS incl. derived units (eval's packed slot addressing uses level-derived index "
-         "and shift).", "abstract interpretation of HIR case tables", "3.3, 3.4, 4 C11"),
+         "and shift). E-EVAL: eval_edge interpreted for one iteration of its argument loop (the value given last counts, injective encodings, no other entry touched) and one call of its walk (child for the stored value; complement flag / counter / terminals), plus the initial call.", "abstract interpretation of HIR case tables", "3.3, 3.4, 3.12, 4 C11"),
 }
 checks = []
 for pid, (text, tech, ref) in sorted(CLAIMS.items()):
